@@ -319,7 +319,11 @@ func (b *Body) havocLoopWrites(lp *Loop, st State) {
 				continue
 			}
 		}
+		old := ft.region(st, region)
 		ft.havocRegion(st, region)
+		if ft.e.prelude.Monotone[region] {
+			ft.fact(A(">=", st[region], old))
+		}
 	}
 }
 
